@@ -20,8 +20,24 @@ def run(ck):
     quick = ck.tier == "quick"
     ck.stage_specs()
     if ck.args.replay:
+        # one base specification and one layout variant: printed again, parsed by the real pipeline, judged by History.tla
         rp = json.load(open(ck.args.replay))
-        raise vp.Infra("C13 replay: the replay file names the base specification and the layout variant; re-run bin/check C13")
+        if "decls" not in rp or "variant" not in rp:
+            raise vp.Infra("C13 replay: this replay file carries no specification (reader-trace and model cases are re-derived by the full check)")
+        tdir = os.path.join(ck.work, "tla")
+        vp.write_ndjson(os.path.join(tdir, "one.ndjson"), [{"fam": rp.get("fam", "R"), "decls": rp["decls"]}])
+        ck.run_harness(["layout-sweep", "-in", "tla/one.ndjson", "-out", "tla/layouts.ndjson", "-step", "1", "-only", rp["variant"]])
+        recs = vp.read_ndjson(os.path.join(tdir, "layouts.ndjson"))
+        r = ck.tlc("History", timeout=600)
+        if not r.ok:
+            raise vp.Infra("History did not complete:\n" + r.out[-2000:])
+        for tag, what in (("DIFFERS", "the result differs from the canonical layout of the same token sequence"),
+                          ("POSITION", "a reported position is not the position of the token in the text")):
+            for d in r.printed(tag):
+                ck.violation("%s, layout %s: %s" % (d["base"], d["variant"], what), dict(rp))
+        ck.coverage["traces_validated_against_impl"] += len(recs)
+        ck.sample({"replayed": rp["variant"], "records": len(recs)})
+        return ck.finish()
 
     # ---- A. design level: the two-buffer reader refines the reader contract (exhaustive, small constants) ----
     for n, mr, kinds in ((2, 5 if quick else 6, "{97, 10, 233}"), (3, 5 if quick else 7, "{97, 10, 233, 8364}"), (4, 5 if quick else 7, "{97, 10, 233, 8364}")):
@@ -56,7 +72,14 @@ def run(ck):
     for f in sorted(os.listdir(tdir)):
         if f.startswith("rt_full.ndjson"):
             traces += vp.read_ndjson(os.path.join(tdir, f))
-    recs = vp.read_ndjson(os.path.join(tdir, "layouts_full.ndjson")) + vp.read_ndjson(os.path.join(tdir, "layouts_rest.ndjson"))
+    recs_rest = vp.read_ndjson(os.path.join(tdir, "layouts_rest.ndjson"))
+    for x in recs_rest:
+        x["base"] = "rest:" + x["base"]          # the harness numbers the specifications of each input file from 1
+    recs = vp.read_ndjson(os.path.join(tdir, "layouts_full.ndjson")) + recs_rest
+    decls_of = {}
+    for pre, lst in (("", full + bad), ("rest:", rest)):
+        for n, sp in enumerate(lst, 1):
+            decls_of["%s%s-%d" % (pre, sp["fam"], n)] = sp
     ck.log("%d layout/padding variants of %d token sequences parsed by the real spec.Parse; %d reader traces recorded" %
            (len(recs), len(full) + len(rest) + 1, len(traces)))
     if ck.args.selftest:
@@ -79,7 +102,8 @@ def run(ck):
         for d in r.printed(tag)[:40]:
             x = byk[(d["base"], d["variant"])]
             ck.violation("%s, layout %s (%d bytes): %s %s" % (d["base"], d["variant"], x["len"], what, x["note"]),
-                         {"property": "C13", "kind": tag, "base": d["base"], "variant": d["variant"]})
+                         {"property": "C13", "kind": tag, "base": d["base"], "variant": d["variant"],
+                          "fam": decls_of[d["base"].split("/semi=")[0]]["fam"], "decls": decls_of[d["base"].split("/semi=")[0]]["decls"]})
     # reader traces of the real lexer against the reader contract
     vp.write_ndjson(os.path.join(tdir, "rtraces.ndjson"), traces)
     r2 = ck.tlc("ReaderTrace", timeout=2400)
